@@ -145,6 +145,24 @@ func c11Content(i int64, maxLen int) string {
 	return stringByIndex(c11Alphabet, i)
 }
 
+// one character of every Unicode general category and every boundary character, in four short contexts
+// (after a character, after a line break, doubled, before a line break)
+func c11ClassChars() []rune { return boundaryChars }
+
+func c11ClassContent(i int64) string {
+	chars := c11ClassChars()
+	ch := string(chars[int(i)/4])
+	switch i % 4 {
+	case 0:
+		return "x" + ch + "x"
+	case 1:
+		return ch + "\n" + ch
+	case 2:
+		return "\r\n" + ch + ch
+	}
+	return "x" + ch + "\r" + "x"
+}
+
 func c11Run(c *fw.Ctx, content string, depthCap int) {
 	runes := []rune(content)
 	c11ContentLen = len(runes)
@@ -372,7 +390,7 @@ func init() {
 		Level: "model_checking",
 		Rule: "explicit-state BFS of the real StringScanner: one graph per content over {x,LF,CR}; operations {Read,Unread,UnreadMany(2),UnreadMany(3),UnreadMany(7),UnreadMany(len+3),Reset} and the observers {Peek+PeekLine+PeekColumn, Line+Column} and the multi-unreads by a non-positive count {0,-1,MinInt} as operations of their own (self-loops on a scanner without hidden state); " +
 			"state key = hash of ALL private fields of the object taken before any observer runs; successors built by replaying the shortest history on a fresh scanner, in four modes that call the observers (peeks / line+column / both / none) after every replayed operation; " +
-			"plus patterns of <=3 characters repeated to lengths up to 66; plus lines of 65535..65537 characters and 65535..65537 line breaks of each kind, read to the end, stepped back over the break and read again; every state is compared with the cursor model, the independent line/column rule and a fresh forward scan; non-trivial = content with a line break and length>=2",
+			"plus one character of every Unicode general category (first and last of each) and every boundary character in four short contexts; plus patterns of <=3 characters repeated to lengths up to 66; plus lines of 65535..65537 characters and 65535..65537 line breaks of each kind, read to the end, stepped back over the break and read again; every state is compared with the cursor model, the independent line/column rule and a fresh forward scan; non-trivial = content with a line break and length>=2",
 		Assume: []string{"peek law asserted only where a next character exists (end-of-input slot pinned by C12)"},
 		Spaces: func(tier string) []fw.Space {
 			maxLen, depth := 4, 8
@@ -397,6 +415,13 @@ func init() {
 					return fmt.Sprintf("%d x (x | %q), then the rest; many lines: %v", hugeCounts[int(i)/8], []string{"\n", "\r", "\r\n", "\n\r"}[int(i)%8/2], i%2 == 1)
 				},
 				Timeout: 300e9,
+			}, {
+				Name: "character-classes",
+				N:    int64(len(c11ClassChars()) * 4),
+				Run: func(c *fw.Ctx, i int64) {
+					c11Run(c, c11ClassContent(i), depth)
+				},
+				Repr: func(i int64) string { return fmt.Sprintf("content=%q", c11ClassContent(i)) },
 			}, {
 				Name: "pumped-contents",
 				N:    (countStrings(3, 3) - 1) * 5,
